@@ -730,7 +730,49 @@ func (e *Env) RRestoreIdent() {
 	pos := e.Prog.Pos(fd.Pos())
 	e.Run.Check("R-IDENT", "restoreIdent takes the qualifier from the path→name table for non-local paths", pos, lookup && localCmp,
 		fmt.Sprintf("the identifier used for the selector's X must be assigned from r.packageNames[n.Path] (found: %v) and n.Path must be compared with the restorer's own path without its vendor prefix, stripVendor(r.Path) (found: %v): the decorator strips the prefix from every path it assigns, a restorer for a vendored package that compares with the raw path takes the package's own identifiers for foreign ones and makes the package import itself", lookup, localCmp))
-	e.Run.Check("R-IDENT", "restoreIdent leaves dot-imported names bare", pos, dot, "the looked-up name must be compared with \".\"")
+	// … and the comparison is acted on: under name == "." the qualifier is cleared (an assignment
+	// of "" to it inside an if on that comparison), or the selector is built only when name != "."
+	dotActs := false
+	inspectAll(func(n ast.Node) bool {
+		is, ok := n.(*ast.IfStmt)
+		if !ok || nameObj == nil {
+			return true
+		}
+		cmpDot, neg := false, false
+		ast.Inspect(is.Cond, func(m ast.Node) bool {
+			if be, ok := m.(*ast.BinaryExpr); ok && (be.Op == token.EQL || be.Op == token.NEQ) {
+				for _, pair := range [][2]ast.Expr{{be.X, be.Y}, {be.Y, be.X}} {
+					if id, ok := ast.Unparen(pair[0]).(*ast.Ident); ok && info.Uses[id] == nameObj {
+						if lit, ok := schema.StringLit(pair[1]); ok && lit == "." {
+							cmpDot, neg = true, be.Op == token.NEQ
+						}
+					}
+				}
+			}
+			return true
+		})
+		if !cmpDot {
+			return true
+		}
+		if neg {
+			dotActs = true // `if name != "." …` guards the qualified form
+			return true
+		}
+		for _, st := range is.Body.List {
+			if as, ok := st.(*ast.AssignStmt); ok && len(as.Lhs) == 1 && len(as.Rhs) == 1 {
+				if id, ok := as.Lhs[0].(*ast.Ident); ok && info.Uses[id] == nameObj {
+					if lit, ok := schema.StringLit(as.Rhs[0]); ok && lit == "" {
+						dotActs = true
+					}
+				}
+			}
+			if _, ok := st.(*ast.ReturnStmt); ok {
+				dotActs = true // the bare identifier is returned from the branch
+			}
+		}
+		return true
+	})
+	e.Run.Check("R-IDENT", "restoreIdent leaves dot-imported names bare", pos, dot && dotActs, "the looked-up name must be compared with \".\" and the qualifier cleared where they are equal: otherwise a dot-imported name is printed as a selector on a package called `.`")
 	e.Run.Check("R-IDENT", "restoreIdent rejects a path on a declaring position", pos, avoidCheck, "expected the avoid-table check to panic before an *ast.Ident-typed position receives a selector")
 }
 
